@@ -174,6 +174,37 @@ theorem dependences_ordered_by_graph (L : Layout) (a b : Task) (ha : exists_ L a
     (hb : exists_ L b = true) (h : mustPrecede L a b) : Relation.TransGen (Par L) a b :=
   anc_of_mustPrecede ha hb h
 
+/-! ## With the slope limiter and the prediction of the code
+
+All theorems above hold for ANY per-cell slope limiter and prediction; these are their instances
+for the models of `apply_slope_limiter` and `predict_primitive_variables`
+(`HydroStep.codeLimiter`, `codePredict`). -/
+
+theorem step_layout_independent_code (L : Layout) (c : Cells)
+    (hc : 0 < c.cx ∧ 0 < c.cy ∧ 0 < c.cz) (flux : FluxFn ℝ) (pr : Params ℝ) (s : Grid (HV ℝ)) :
+    hydroStepCode flux pr (layoutOps L c) (layoutOps L c) s
+      = hydroStepCode flux pr (gridOps (cellGrid L c)) (gridOps (cellGrid L c)) s :=
+  step_layout_independent L c hc flux pr (codeLimiter pr) (codePredict pr) s
+
+theorem schedule_independent_code (L : Layout) (c : Cells) (hc : 0 < c.cx ∧ 0 < c.cy ∧ 0 < c.cz)
+    (flux : FluxFn ℝ) (pr : Params ℝ) (sched sched' : List Task) (h : LinExt L sched)
+    (h' : LinExt L sched') (s : Grid (HV ℝ)) :
+    runSchedule flux pr (codeLimiter pr) (codePredict pr) L c sched s
+      = runSchedule flux pr (codeLimiter pr) (codePredict pr) L c sched' s :=
+  schedule_independent L c hc flux pr (codeLimiter pr) (codePredict pr) sched sched' h h' s
+
+theorem execution_layout_independent_code (L L' : Layout) (c c' : Cells)
+    (hc : 0 < c.cx ∧ 0 < c.cy ∧ 0 < c.cz) (hc' : 0 < c'.cx ∧ 0 < c'.cy ∧ 0 < c'.cz)
+    (hG : cellGrid L c = cellGrid L' c') (flux : FluxFn ℝ) (pr : Params ℝ)
+    (sched sched' : List Task) (h : LinExt L sched) (h' : LinExt L' sched') (s : Grid (HV ℝ))
+    (x : Cell) (hx : valid (cellGrid L c) x = true) :
+    runSchedule flux pr (codeLimiter pr) (codePredict pr) L c sched s x
+        = runSchedule flux pr (codeLimiter pr) (codePredict pr) L' c' sched' s x ∧
+      runSchedule flux pr (codeLimiter pr) (codePredict pr) L c sched s x
+        = hydroStepCode flux pr (gridOps (cellGrid L c)) (gridOps (cellGrid L c)) s x :=
+  execution_layout_independent L L' c c' hc hc' hG flux pr (codeLimiter pr) (codePredict pr)
+    sched sched' h h' s x hx
+
 /-- non-vacuity: 12 × 6 × 4 cells as 2 × 3 × 1 subgrids of 6 × 2 × 4 cells or 3 × 1 × 2 of
 4 × 6 × 2 -/
 example : cellGrid ⟨2, 3, 1, true, false, true⟩ ⟨6, 2, 4⟩
